@@ -55,6 +55,12 @@ type fetcherDocID struct {
 }
 
 func (f *multiFetcher) NextDoc() (immutable.Option[string], error) {
+	if f.currentFetcherIndex >= 0 && f.currentFetcherIndex < len(f.children) {
+		// If the document last returned was skipped (`GetFields` was not called for it), move
+		// on from it, otherwise it would be yielded again and again.
+		f.children[f.currentFetcherIndex].docID = immutable.None[string]()
+	}
+
 	selectedFetcherIndex := -1
 	var selectedDocID immutable.Option[string]
 
